@@ -73,6 +73,20 @@ static_assert(_MSC_FULL_VER >= 190024210, "Visual C++ 2015 Update 3 or later req
 #include <memory>
 #include <string>
 
+#ifdef CHAISCRIPT_VERIF
+#include <atomic>
+#include <cstddef>
+namespace chaiscript {
+  /// Verification-only observation points (compiled in only with -DCHAISCRIPT_VERIF)
+  namespace verif {
+    /// largest number of unconsumed input bytes seen when parse_internal returned normally (per thread, reset by the harness)
+    inline thread_local std::size_t parse_remaining_max = 0;
+    /// number of normal returns of parse_internal (per thread)
+    inline thread_local std::size_t parse_returns = 0;
+  } // namespace verif
+} // namespace chaiscript
+#endif
+
 namespace chaiscript {
   constexpr static const int version_major = 7;
   constexpr static const int version_minor = 0;
